@@ -42,11 +42,11 @@ def trace_files():
     return {
         src("_execution/run_function_on_graph.py"): eng,
         src("_execution/scheduler.py"): eng,
-        src("_execution/run_physical.py"): 1,
-        src("_transformations/caching.py"): 1,
+        src("_execution/run_physical.py"): 3,
+        src("_transformations/caching.py"): 3,
         src("_util/retry.py"): 1,
         src("_run.py"): 1,
-        src("progress/_simple_progress_observer.py"): 1,
+        src("progress/_simple_progress_observer.py"): 3,
         src("progress/_composite_progress_observer.py"): 1,
     }
 
